@@ -392,11 +392,14 @@ impl<'c, 's, W: Write> Writer<'c, 's, W> {
 	/// Flush the final block (if a block was started) then return the
 	/// underlying writer.
 	pub fn into_inner(mut self) -> Result<W, SerError> {
-		self.finish_block()?;
-		Ok(self
+		let res = self.finish_block();
+		// Take the writer in any case, so that `Drop` does not attempt to flush again
+		// (and panic in debug mode on the error that we are about to return)
+		let writer = self
 			.writer
 			.take()
-			.expect("Only called by this function, which takes ownership"))
+			.expect("Only called by this function, which takes ownership");
+		res.map(|()| writer)
 	}
 
 	/// Flush the current block (if a block was started)
@@ -492,6 +495,11 @@ impl<'c, 's, W: Write> Writer<'c, 's, W> {
 
 impl<'c, 's, W: Write> Drop for Writer<'c, 's, W> {
 	fn drop(&mut self) {
+		if self.writer.is_none() {
+			// `into_inner` was called: flushing was already attempted there and its
+			// outcome was reported to the caller
+			return;
+		}
 		let panicking = std::thread::panicking();
 		let res = match panicking {
 			false => self.finish_block(),
